@@ -263,7 +263,7 @@ let run_admit (parts : string list) : string =
   let out = ref [] in
   let name o = match o with
     | OAccepted -> "ACCEPT" | OConnClosed -> "CLOSED" | OAnswered -> "ANS" | ORefused -> "REFUSED"
-    | O503 -> "503" | OStreamClosed -> "SCLOSED" in
+    | O503 -> "503" | OStreamClosed -> "SCLOSED" | OBadRequest -> "400" in
   let do_step e = let (r', o) = listener_step !r Z0 e in r := r'; o in
   let query l a =
     (* connection-oriented listeners: the connection cost is charged when the client's connection is opened *)
@@ -280,6 +280,7 @@ let run_admit (parts : string list) : string =
     | ["qq"; a] -> query LQuic (c15_addr a)
     | ["hc"; a] -> out := name (do_step (AConn (LmHttp, c15_addr a))) :: !out
     | ["hq"; a] -> out := name (do_step (AQuery (LmHttp, c15_addr a, false))) :: !out
+    | ["hx"; _] -> out := name (do_step (ABadAddr LmHttp)) :: !out
     | _ -> failwith ("bad step " ^ st)) (split_on ',' (fld f "steps"));
   "out=" ^ String.concat "," (List.rev !out)
 
@@ -288,3 +289,87 @@ let () = register "limdefaults" run_limdefaults
 let () = register "limconfig" run_limconfig
 let () = register "limrace" run_limrace
 let () = register "admit" run_admit
+
+(* ---- round 4: the composed limiter (kind limglobalspec = respec of limglobal) ----
+   case: the limglobal case line + t=<a0>:<b0>,... ires=<impl results>.  The model replays every call of phase p at the
+   measured instant a_p; the real call happened somewhere in [a_p, b_p].  Model tokens and real tokens of a bucket differ
+   by at most rate * 2 * (sum of the phase durations so far) (+ float64): a decision closer to its threshold is '?', and
+   so is every later decision that involves that bucket. *)
+let run_limglobalspec (parts : string list) : string =
+  let f = fields parts in
+  let c = c15_cfg f in
+  let phases = List.map (fun ps ->
+    match String.index_opt ps '/' with
+    | Some i ->
+      let cs = String.sub ps (i + 1) (String.length ps - i - 1) in
+      List.map (fun cl -> match String.split_on_char ':' cl with
+        | [a; n] -> (c15_addr a, int_of_string n) | _ -> failwith ("bad call " ^ cl)) (split_on '+' cs)
+    | None -> failwith ("bad phase " ^ ps)) (split_on ',' (fld f "ph")) in
+  let times = List.map (fun s -> match String.split_on_char ':' s with
+    | [a; b] -> (int_of_string a, int_of_string b) | _ -> failwith "bad t") (split_on ',' (fld f "t")) in
+  let ires = List.map (fun s -> if s = "-" then "" else s) (String.split_on_char ',' (fld f "ires")) in
+  if List.length times <> List.length phases || List.length ires <> List.length phases then "spec=FAIL:shape" else begin
+  let r = ref (rl_of_config c Z0) in
+  let o_opt = cfg_client c in
+  let glim = (match cfg_global c with Some g -> int_of_z g | None -> 0) in
+  let crate = (match o_opt with Some o -> int_of_z o.o_limit | None -> 0) in
+  let cburst = (match o_opt with Some o -> int_of_z o.o_burst | None -> 0) in
+  let dur = ref 0 in
+  let g_taint = ref false and k_taint = ref [] in
+  let out = Buffer.create 64 in
+  let bad = ref None in
+  (* property oracle on the implementation's own results (C15_client_refusal_means_own_budget, executable): *)
+  let granted = ref [] in   (* key -> cost admitted so far, by the implementation *)
+  let own = ref None in
+  let pi = ref 0 in
+  List.iter2 (fun (calls, (a, b)) rs ->
+    if String.length rs <> List.length calls then bad := Some "shape" else begin
+    dur := !dur + (b - a);
+    let gband = glim * 2 * !dur + 1000 and cband = crate * 2 * !dur + 1000 in
+    List.iteri (fun i (addr, n) ->
+      let now = z_of_int a in
+      let ir = rs.[i] in
+      (* margins before the step *)
+      let gmargin = (match !r.rl_global with
+        | Some (lim, bk) -> if n <= int_of_z lim then
+              Some (int_of_z (step_margin { o_limit = lim; o_burst = lim; o_v4 = z_of_int 32; o_v6 = z_of_int 128 }
+                                 [ (LA4 N0, bk) ] (EvAllow (now, LA4 N0, z_of_int n)) |> (function Some m -> m | None -> Z0)))
+            else None
+        | None -> None) in
+      let key = (match o_opt with Some o -> mask_addr o addr | None -> LANone) in
+      let cmargin = (match !r.rl_client with
+        | Some (o, tbl) -> (match step_margin o tbl (EvAllow (now, addr, z_of_int n)) with Some m -> Some (int_of_z m) | None -> None)
+        | None -> None) in
+      let (r', res) = rl_allow !r now addr (z_of_int n) in
+      r := r';
+      let mr = (match res with RlOk -> 'o' | RlGlobal -> 'g' | RlClient -> 'c') in
+      let g_amb = (match gmargin with Some m -> abs m < gband | None -> false) in
+      if g_amb then g_taint := true;
+      let reaches_client = (mr <> 'g') && addr <> LANone && o_opt <> None in
+      let c_amb = reaches_client && (match cmargin with Some m -> abs m < cband | None -> false) in
+      if c_amb && not (List.exists (addr_eqb key) !k_taint) then k_taint := key :: !k_taint;
+      let unsure = (addr <> LANone) && (!g_taint || (o_opt <> None && List.exists (addr_eqb key) !k_taint)) in
+      (* once the global bucket is ambiguous, which calls reach the client limiter is ambiguous too *)
+      if !g_taint && o_opt <> None && addr <> LANone && not (List.exists (addr_eqb key) !k_taint) then k_taint := key :: !k_taint;
+      Buffer.add_char out (if unsure then '?' else mr);
+      if not unsure && mr <> ir && !bad = None then
+        bad := Some (Printf.sprintf "phase-%d-call-%d:model-%c-impl-%c" !pi i mr ir);
+      (* own-budget oracle, timing-free *)
+      if addr <> LANone && o_opt <> None then begin
+        let kk = c15_fmt_addr key in
+        let g0 = (try List.assoc kk !granted with Not_found -> 0) in
+        if ir = 'c' && n >= 0 && g0 + n <= cburst && !own = None then
+          own := Some (Printf.sprintf "client-refusal-within-own-budget:%s:admitted-%d-cost-%d-burst-%d" kk g0 n cburst);
+        if ir = 'o' then granted := (kk, g0 + n) :: List.remove_assoc kk !granted
+      end) calls;
+    Buffer.add_char out ',';
+    incr pi end) (List.combine phases times) ires;
+  let res = Buffer.contents out in
+  let res = if res = "" then "-" else String.sub res 0 (String.length res - 1) in
+  match !own, !bad with
+  | Some w, _ -> Printf.sprintf "res=%s || spec=FAIL:%s" res w
+  | None, Some w -> Printf.sprintf "res=%s || spec=FAIL:%s" res w
+  | None, None -> Printf.sprintf "res=%s || spec=ok" res
+  end
+
+let () = register "limglobalspec" run_limglobalspec
